@@ -30,13 +30,14 @@ from bounded.oracles_linalg import (
     solve_system,
     spec_fp,
     systematic_matrices,
+    tall_and_single_precision_matrices,
     valid_msgs,
 )
 
 _DOMAIN = (
     "2-D abelian and fermionic arrays over Z2, U1, Z2Z2, U1U1 (static and generic classes) and Z4 (generic), "
     "4 direction patterns, every reachable total charge (odd fermionic with a label), blocks of shape 1x1 .. 4x4 "
-    "(tall, wide, square), integer rank-1/2 blocks, zero blocks, missing blocks, float64/complex128, pending signs, "
+    "(tall, wide, square), integer rank-1/2 blocks, zero blocks, missing blocks, float64/complex128, pending signs, very tall / wide blocks (aspect 40..100: well / ill conditioned 1e5, 1e7 / rank one), float32/complex64 (tol 1e-4), "
     "and matrices fused from rank-3/4 arrays"
 )
 CONTRACTS = {
@@ -53,6 +54,11 @@ def gen_cases(tier, seed):
     for m in systematic_matrices(stride=1):
         yield {"contract": "C11.qr", "m": m, "stabilized": False}
         yield {"contract": "C11.qr", "m": m, "stabilized": True}
+        yield {"contract": "C11.svd", "m": m}
+    for k, m in enumerate(tall_and_single_precision_matrices()):
+        if quick and k % 2:
+            continue
+        yield {"contract": "C11.qr", "m": m, "stabilized": bool(k % 4 < 2)}
         yield {"contract": "C11.svd", "m": m}
     rng = np.random.default_rng([11, 0])
     for sym in ALL_SYMS:
